@@ -24,6 +24,11 @@ var SpokBin = os.Getenv("SIM_SPOK_BIN")
 func (w *World) InvokeProc(in Invocation) *Obs {
 	obs := &Obs{Counts: map[string]int{}}
 	cmd := exec.Command(SpokBin, in.Args...)
+	if in.Faults.FsizeLimit > 0 {
+		// prlimit sets the limit and execs the binary: the limit is in force from the first instruction on.
+		// The Go runtime ignores SIGXFSZ, so the write simply fails with EFBIG after a short write.
+		cmd = exec.Command("/usr/bin/prlimit", append([]string{fmt.Sprintf("--fsize=%d", in.Faults.FsizeLimit), SpokBin}, in.Args...)...)
+	}
 	cmd.Dir = in.Cwd
 	env := []string{"PATH=/usr/bin:/bin", fmt.Sprintf("SPOKSIM_DAGSEED=%d", dagSeed(in.Sched, in.Inv))}
 	for _, k := range sortedKeys(in.Env) {
